@@ -802,16 +802,24 @@ def _datatypes_own():
         'struct': StructOf(optional=['b', 'c'], a=IntRange(0, 9), b=StringType(0, 4), c=FloatRange()),
         'arrstruct': ArrayOf(StructOf(optional=['q'], p=BoolType(), q=IntRange(0, 9)), 0, 3),
         'tupnest': TupleOf(EnumType('t', x=1, y=2), ArrayOf(FloatRange(), 0, 2)),
+        'tupscaled': TupleOf(ScaledInteger(0.01, -5, 5), StringType(0, 4)),
+        'tupblob': TupleOf(BLOBType(0, 8), IntRange(0, 9)),
+        'arrscaled': ArrayOf(ScaledInteger(0.01, -5, 5), 0, 3),
+        'structsb': StructOf(a=ScaledInteger(0.01, -5, 5), b=BLOBType(0, 8)),
         'bigblob': BLOBType(0, 200000), 'bigstring': StringType(0, 200000), 'bigarray': ArrayOf(IntRange(0, 9), 0, 100000),
     }
 
 
 BIGKINDS = ['bigblob', 'bigstring', 'bigarray']     # frames of tens of kB
-KINDS = ['int64', 'uint64', 'double', 'int', 'scaled', 'bool', 'enum', 'string', 'blob', 'array', 'tuple', 'struct', 'arrstruct', 'tupnest']
+KINDS = ['int64', 'uint64', 'double', 'int', 'scaled', 'bool', 'enum', 'string', 'blob', 'array', 'tuple', 'struct', 'arrstruct', 'tupnest',
+         # containers whose members have a wire form different from the internal one
+         'tupscaled', 'tupblob', 'arrscaled', 'structsb']
 SCALE = {'scaled': 0.01}
 ENUMS = {'enum': {'off': 0, 'low': 1, 'high': 5}, 'tupnest.0': {'x': 1, 'y': 2}}
 
 
+CONTAINERS = {'tupscaled': [(0, 'scaled'), (1, 'string')], 'tupblob': [(0, 'blob'), (1, 'digit')],
+              'arrscaled': [(0, 'scaled')], 'structsb': [('a', 'scaled'), ('b', 'blob')]}
 TEXTSAFE = False   # doubles whose display text (6 significant digits) is exact: the text form itself belongs to C02
 
 
@@ -890,6 +898,15 @@ def _gen_value(kind, rnd, partial=True, path=None):
                 ab['q'], co['q'] = _gen_value('digit', rnd)
             items.append(({'j': 'struct', 'm': ab}, co))
         return {'j': 'seq', 'e': [a for a, _ in items]}, [c for _, c in items]
+    if kind in CONTAINERS:
+        spec = CONTAINERS[kind]
+        if kind == 'arrscaled':
+            items = [_gen_value('scaled', rnd) for _ in range(rnd.randint(0, 3))]
+            return {'j': 'seq', 'e': [a for a, _ in items]}, rnd.choice([list, tuple])(c for _, c in items)
+        items = [(f, _gen_value(k, rnd, path='tuple.1')) for f, k in spec]
+        if kind == 'structsb':
+            return {'j': 'struct', 'm': {f: a for f, (a, _) in items}}, {f: c for f, (_, c) in items}
+        return {'j': 'seq', 'e': [a for _, (a, _) in items]}, rnd.choice([list, tuple])(c for _, (_, c) in items)
     if kind == 'tupnest':
         e = _gen_value('enum', rnd, path='tupnest.0')
         arr = [_gen_value('cdouble', rnd) for _ in range(rnd.randint(0, 2))]
@@ -950,6 +967,15 @@ def a_tree(kind, v, path=None):
         if kind == 'arrstruct':
             kinds = {'p': 'bool', 'q': 'digit'}
             return {'j': 'seq', 'e': [{'j': 'struct', 'm': {f: a_tree(kinds.get(f, 'string'), x) for f, x in dict(s).items()}} for s in v]}
+        if kind == 'arrscaled':
+            return {'j': 'seq', 'e': [a_tree('scaled', x) for x in v]}
+        if kind == 'structsb':
+            kinds = dict(CONTAINERS[kind])
+            return {'j': 'struct', 'm': {f: a_tree(kinds.get(f, 'string'), x, 'tuple.1') for f, x in dict(v).items()}}
+        if kind in CONTAINERS:
+            spec = CONTAINERS[kind]
+            return {'j': 'seq', 'e': [a_tree(k, x, 'tuple.1') for (_, k), x in zip(spec, v)]
+                    + [{'j': 'atom', 'v': '?extra'}] * max(0, len(v) - len(spec))}
         if kind == 'tupnest':
             return {'j': 'seq', 'e': [a_tree('enum', v[0], 'tupnest.0'), {'j': 'seq', 'e': [a_tree('cdouble', x) for x in v[1]]}]
                     + [{'j': 'atom', 'v': '?extra'}] * max(0, len(v) - 2)}
@@ -1004,10 +1030,15 @@ def _make_driver_class(without=()):
                     value = {k: v for k, v in (('a', a), ('b', b), ('c', c)) if v is not None}
                     self.rec.append(('c', name, value))
                     return scripted(self, 'c_' + name)
+            elif kind == 'structsb':
+                def c(self, a, b):
+                    """command with a struct argument"""
+                    self.rec.append(('c', name, {'a': a, 'b': b}))
+                    return scripted(self, 'c_' + name)
             else:
                 def c(self, *args):
                     """command with argument and result of the kind"""
-                    self.rec.append(('c', name, tuple(args) if kind in ('tuple', 'tupnest') else args[0]))
+                    self.rec.append(('c', name, tuple(args) if kind in ('tuple', 'tupnest', 'tupscaled', 'tupblob') else args[0]))
                     return scripted(self, 'c_' + name)
             return c
         c = mkcmd()
